@@ -105,7 +105,7 @@ def check(case):
 
 
 def _strategy(tier):
-    return st.one_of(G.script(1, 3, comments=0, assign=True), G.script(2, 3, comments=0, go=True, assign=True), G.script(1, 2, comments=0),
+    return st.one_of(G.script(1, 3, comments=0, assign=True), G.script(2, 3, comments=0, go=True, assign=True), G.script(1, 2, comments=0, stmt=G.case_heavy_select()),
                      proc.script(depth=2, max_pre=1, max_post=2, comments=0), proc.script(depth=3, max_pre=0, max_post=2, comments=0)).map(lambda laid: {'lex': laid})
 
 
